@@ -3,6 +3,7 @@ package file
 import (
 	"bytes"
 	"encoding/asn1"
+	"errors"
 	"strings"
 
 	"github.com/google/uuid"
@@ -47,9 +48,19 @@ func IsMixedPEM(_ string, data []byte, _ int64) bool {
 }
 
 func IsUUID(_ string, data []byte, _ int64) bool {
-	s := strings.TrimSpace(string(data))
-	if _, err := uuid.Parse(s); err != nil {
+	if _, err := parseUUID(data); err != nil {
 		return false
 	}
 	return true
+}
+
+// parseUUID parses text consisting of a single UUID surrounded by optional whitespace.
+// uuid.Parse strips the first and last byte of a 38-byte string without looking at them,
+// so the braces of the "{...}" form are checked here.
+func parseUUID(data []byte) (uuid.UUID, error) {
+	s := strings.TrimSpace(string(data))
+	if len(s) == 38 && (s[0] != '{' || s[37] != '}') {
+		return uuid.UUID{}, errors.New("invalid UUID format")
+	}
+	return uuid.Parse(s)
 }
